@@ -77,10 +77,16 @@ def gen_pat():
         bool(re.search(r"fDoPredicates\s*=\s*false", anyc))
     # root
     _, root = group_of("eFROM_ROOT")
-    facts["root_walk_up_after"] = sorted(set(re.findall(r"prevStepType\s*==\s*XPathExpression::(e\w+)", root)))
-    # after an any-ancestor step FROM_ROOT re-tests that step (node test and predicates) on the top-level ancestor
-    facts["root_retests_previous_step"] = bool(re.search(r"NodeTester\s*\([^;]*?prevPos\s*\+\s*3[^;]*?prevStepType\s*\)", root)) and \
-        bool(re.search(r"doStepPredicate\s*\(", root))
+    # FROM_ROOT only accepts the root itself (no look at the neighbouring step, no walk towards the root)
+    facts["root_is_exact"] = ("prevStepType" not in root) and ("getParentOfNode" not in root) and \
+        bool(re.search(r"DOCUMENT_NODE", root))
+    # an any-ancestor step whose left neighbour is exact re-enters stepPattern on the steps to its left
+    # (from firstPos, stopping at this step) for every ancestor it would accept
+    m = re.search(r"fCheckLeft\s*=\s*([^;]*);", anyc[anyc.index("if (startOpPos != firstPos)"):] if "if (startOpPos != firstPos)" in anyc else "")
+    facts["left_check_skipped_after"] = sorted(set(re.findall(r"leftStepType\s*!=\s*XPathExpression::(e\w+)", m.group(1)))) if m else []
+    facts["any_checks_left"] = bool(re.search(
+        r"fCheckLeft\s*==\s*true\s*\)\s*\{.*?getParentOfNode\s*\(\s*\*context\s*\).*?stepPattern\s*\(\s*executionContext\s*,\s*theParent\s*,\s*firstPos\s*,\s*theLeftScore\s*,\s*firstPos\s*,\s*startOpPos\s*\)", anyc, re.S))
+    facts["stop_ends_pattern"] = bool(re.search(r"endStep\s*==\s*stopPos\s*\?", pro))
     # function head
     _, fn = group_of("eOP_FUNCTION")
     facts["function_ancestor_loop"] = bool(re.search(
@@ -121,7 +127,7 @@ def gen_pat():
     out += "From Coq Require Import List String.\nImport ListNotations.\nOpen Scope string_scope.\n\n"
     out += "(* case labels of the switch in XPath::stepPattern, in source order *)\n"
     out += "Definition step_pattern_cases : list string := %s.\n" % cs(order)
-    for k in ("imm_excluded_types", "any_cases_shared", "any_document_excluded_for", "root_walk_up_after",
+    for k in ("imm_excluded_types", "any_cases_shared", "any_document_excluded_for", "left_check_skipped_after",
               "name_test_attribute_axes", "step_ops", "head_ops"):
         out += "Definition %s : list string := %s.\n" % (k, cs(facts[k]))
     out += "Definition attr_tester_axis : string := \"%s\".\n" % facts["attr_tester_axis"]
